@@ -315,7 +315,7 @@ Ref(x, g, lo, hi, var) ==
     [] o = "of_result" -> IF PV(x)[1] = "e" THEN S(<<>>, "E", PV(x)) ELSE S(<<Unwrap(PV(x))>>, "C", U)
     [] o = "of_fn" \/ o = "start" -> S(<<PV(x)>>, "C", U)
     [] o = "from_iter" ->        \* variant "cut<k>" (used by monitor C16): only the first k items, not yet finished
-         IF \E k \in 0..Len(PL(x)) : CutName(k) \in var
+         IF PB(x) = 7 /\ \E k \in 0..Len(PL(x)) : CutName(k) \in var
          THEN S(SubSeq(PL(x), 1, CHOOSE k \in 0..Len(PL(x)) : CutName(k) \in var), "", U)
          ELSE S(PL(x), "C", U)
     [] o = "repeat" -> S([i \in 1..PA(x) |-> PV(x)], "C", U)
